@@ -104,6 +104,8 @@ pub struct Stuck {
     pub detail: String,
     /// element type of the channel for Send/Recv waits ("" otherwise)
     pub elem: &'static str,
+    /// for Mutex waits: the task holding the mutex
+    pub holder: Option<u32>,
 }
 
 pub struct Runtime {
@@ -274,6 +276,10 @@ impl Runtime {
                 wait: t.wait.clone(),
                 detail,
                 elem,
+                holder: match t.wait {
+                    Wait::Mutex(m) => self.mutex_holder[m as usize],
+                    _ => None,
+                },
             });
         }
         v
